@@ -352,6 +352,41 @@ impl<'p> Interp<'p> {
                 let v = self.eval(x, env, st, sty)?;
                 self.apply(*id, f, vec![v], env, st, sty)?
             }
+            E::Pack(id, fname, fields, _dots) => {
+                let def: &FnDef = self.fns.get(fname.as_str()).copied().ok_or_else(|| Unsupported("pack into an unknown function".into()))?;
+                let pnames: Vec<String> = def.params.iter().map(|p| p.name.clone()).collect();
+                let defaults = def.defaults.clone();
+                let mut vs: Vec<Option<V>> = vec![None; pnames.len()];
+                if fields.iter().all(|(n, _)| n.is_none()) {
+                    for (i, (_, e)) in fields.iter().enumerate() {
+                        let v = self.eval(e, env, st, sty)?;
+                        if i < vs.len() {
+                            vs[i] = Some(v);
+                        }
+                    }
+                } else {
+                    // a record literal is laid out (and its fields evaluated) in alphabetical key order
+                    let mut sorted: Vec<&(Option<String>, E)> = fields.iter().collect();
+                    sorted.sort_by(|a, b| a.0.cmp(&b.0));
+                    for (n, e) in sorted {
+                        let v = self.eval(e, env, st, sty)?;
+                        if let Some(i) = pnames.iter().position(|p| Some(p) == n.as_ref()) {
+                            vs[i] = Some(v);
+                        }
+                    }
+                }
+                let mut args = vec![];
+                for (i, v) in vs.into_iter().enumerate() {
+                    match v {
+                        Some(v) => args.push(v),
+                        None => {
+                            let d = defaults.get(i).cloned().flatten().ok_or_else(|| Unsupported("missing pack field without default".into()))?;
+                            args.push(V::Num(d.parse::<f64>().map_err(|_| Unsupported("default literal".into()))?));
+                        }
+                    }
+                }
+                self.apply(*id, &E::Var(fname.clone()), args, env, st, sty)?
+            }
             E::SelfV => {
                 let cur = st.borrow().self_val.clone();
                 match cur {
